@@ -68,7 +68,9 @@ def _body(w, allow_raise=True):
             steps.append(["work", w.pick(WORK_US)])
         elif k == "jump":
             # clock fault: the wall clock is stepped (NTP, suspend/resume) while the spinner runs
-            steps.append(["jump", w.pick([-2_000_000, -150_000, 400_000, 30_000_000])])
+            # small steps both ways, half a minute, and - NTP correction after a wrong date, resume
+            # after suspend - more than a week forward
+            steps.append(["jump", w.pick([-2_000_000, -150_000, 400_000, 30_000_000, 700_000_000_000])])
         elif k == "busy":
             # the caller computes without blocking: k scheduling points, each costing the quantum,
             # during which the spinner may wake up - both threads are runnable and the scheduler decides
@@ -98,7 +100,8 @@ def gen(S, tier):
             if k == "advance":
                 ops.append(["advance"])
             elif k == "tick":
-                ops.append(["tick", w.pick([0, 1000, 20_000, 49_000, 50_000, 99_000, 100_000, 101_000, 250_000, 3_000_000])])
+                ops.append(["tick", w.pick([0, 1000, 20_000, 49_000, 50_000, 99_000, 100_000, 101_000, 250_000, 3_000_000,
+                                            w.pick([3_000_000, 90_000_000, 8_000_000_000, 700_000_000_000])])])
             else:
                 ops.append(["msg", w.pick(MESSAGES)])
         ops.append(["finish", "end", w.chance(0.5)])
@@ -122,6 +125,15 @@ def gen(S, tier):
         "sched_seed": s.getrandbits(48),
         "schedule": None,
     })
+    if sc["real_stream"] and sc["ansi"] and sc["verbosity"] == 0 and f.chance(0.3):
+        # fault: the file object under clikit's StreamOutputStream accepts only part of a write
+        sc["short_write_p"] = f.pick([0.1, 0.3])
+    if w.chance(0.25) and not sc.get("short_write_p"):
+        tail = [["start", "start"]]
+        for _ in range(w.randint(2, 12)):
+            tail.append(w.pick([["advance"], ["advance"], ["tick", w.pick([0, 1000, 49_000, 99_000, 101_000, 250_000])], ["msg", w.pick(MESSAGES)]]))
+        tail.append(["finish", "end", False])
+        sc["manual_tail"] = tail
     return sc
 
 
@@ -225,8 +237,13 @@ def _mk_io(sc, log, screen, on_write=None, after_write=None):
     if sc.get("real_stream"):
         from ..realstream import RealStreamOutput, SimFile
         wt = sc.get("file_mode", "write_through") == "write_through"
+        sw = None
+        if sc.get("short_write_p"):
+            srng = Rng((sc.get("sched_seed") or 0) ^ 0x5157)
+            # never inside the cursor-control prefix of a frame: the device would see half a sequence
+            sw = lambda text: srng.randint(5, len(text) - 1) if len(text) > 6 and srng.random() < sc["short_write_p"] else len(text)
         f = SimFile("err", log, screen=screen, on_write=None if wt else on_write, write_through=wt,
-                    on_call=on_write)
+                    on_call=on_write, short_write=sw)
         f.after_write = after_write
         stream = RealStreamOutput(f, sc["ansi"])
     else:
@@ -240,7 +257,8 @@ def _mk_io(sc, log, screen, on_write=None, after_write=None):
 def _frame_re(sc, values, messages):
     v = "|".join(re.escape(x) for x in values)
     m = "|".join(re.escape(x) for x in sorted(messages, key=len, reverse=True))
-    el = r"(?: \((?:< 1 sec|1 sec|\d+ secs?|1 min|\d+ mins?|1 hr|\d+ hrs?) *\))?"
+    # (beyond a week format_time has no entry and answers None: not a matter of this property)
+    el = r"(?: \((?:< 1 sec|1 sec|\d+ secs?|1 min|\d+ mins?|1 hr|\d+ hrs?|1 day|\d+ days?|None) *\))?"
     fmt = sc["fmt"]
     if fmt == "{message} {indicator}":
         return re.compile("^(?:%s) (?:%s)$" % (m, v))
@@ -303,7 +321,12 @@ def _auto(sc, res, clock, log):
                 res.probe("spinner_between_main_frame_writes" if other == "main" else "main_between_spinner_frame_writes")
         wstate["pending_frame"][actor] = False
         row = screen.row_text(screen.r - 1) if data.endswith("\n") else screen.row_text(screen.r)
-        if row and not frame_re.match(row):
+        if row and sc.get("short_write_p"):
+            # after a short write the line may show the beginning of ONE frame - still never a mixture
+            full = [(" %s %s" % (v_, m_)) if sc["fmt"] != "{message} {indicator}" else ("%s %s" % (m_, v_)) for v_ in values for m_ in messages]
+            if not any(f_.startswith(row.rstrip()) or f_.startswith(row) for f_ in full):
+                res.violate("line_is_one_frame", "auto", "terminal line shows %r after %s wrote %r (short writes: only a prefix of one frame is acceptable)" % (row, actor, data))
+        elif row and not frame_re.match(row):
             res.violate("line_is_one_frame", "auto", "terminal line shows %r after %s wrote %r" % (row, actor, data))
 
     stream, out = _mk_io(sc, log, screen, on_write, after_write)
@@ -404,7 +427,10 @@ def _auto(sc, res, clock, log):
                     ok = re.match("^ %s %s(?: \\(.*\\))?$" % (re.escape(v0), re.escape(end)), last) is not None
                 else:
                     ok = last == " %s %s" % (v0, end)
-                if not ok:
+                if not ok and sc.get("short_write_p"):
+                    # the stream dropped part (or all) of the final frame: not the component's doing
+                    res.probe("last_frame_cut_by_short_write")
+                elif not ok:
                     res.violate("last_frame", "normal_exit", "last line on screen is %r, expected the end message %r with indicator %r" % (last, end, v0))
                 elif screen.c != 0 or screen.r < len(rows):
                     res.violate("last_frame", "cursor", "cursor at %r after the end message, screen has %d rows" % ((screen.r, screen.c), len(rows)))
@@ -416,6 +442,12 @@ def _auto(sc, res, clock, log):
         late = [e for e in log.events[exit_seq:] if e[3] == "write" and e[1] != "main"]
         if late:
             res.violate("spinner_joined", "writes_after_exit", "spinner wrote %r after the with-block was left" % (late[0][5],))
+        if getattr(getattr(stream, "file", None), "short_writes", 0):
+            res.fault("short_write", stream.file.short_writes)
+        if sc.get("manual_tail") and outcome == "normal" and not res.violations:
+            # the same indicator object, now driven by hand: the manual-mode clauses hold for it too
+            res.probe("manual_use_after_auto")
+            _manual_ops(sc, res, clock, log, ind, stream, screen, sc["manual_tail"], "manual_after_auto")
     except Abort as e:
         reason = str(e)
         began = any(marks.get(t + "_exit_started") is not None and marks.get(t + "_exit_done") is None for t in ("b1", "b2"))
@@ -457,11 +489,19 @@ def _manual(sc, res, clock, log):
     if sc["fmt"]:
         kw["fmt"] = sc["fmt"]
     ind = _pi.ProgressIndicator(out, interval=sc["interval"], **kw)
+    frames = _manual_ops(sc, res, clock, log, ind, stream, screen, sc["ops"], "manual")
+    res.states.add(("manual", sc["ansi"], frames))
+    res.nontrivial = frames >= 3
+
+
+def _manual_ops(sc, res, clock, log, ind, stream, screen, ops, where):
+    """Drives an indicator by hand (no spinner thread) and checks throttle and frames."""
+    values = sc["values"] or ["-", "\\", "|", "/"]
     interval_us = sc["interval"] * 1000
     msg = None
     last_adv = None
     frames = 0
-    for op in sc["ops"]:
+    for op in ops:
         res.steps += 1
         k = op[0]
         if k == "tick":
@@ -498,7 +538,7 @@ def _manual(sc, res, clock, log):
                 res.violate("plain_redraw", "advance", "advance redrew on a plain output: %r" % data)
             if drew:
                 if last_adv is not None and t - last_adv < interval_us - 1000:
-                    res.violate("throttle", "manual", "advance-caused redraws %d us apart, interval %d us" % (t - last_adv, interval_us))
+                    res.violate("throttle", where, "advance-caused redraws %d us apart, interval %d us" % (t - last_adv, interval_us))
                 last_adv = t
             else:
                 res.probe("manual_throttled")
@@ -512,11 +552,10 @@ def _manual(sc, res, clock, log):
                 rows_now = screen.text_rows()
                 row = rows_now[-1] if rows_now else ""
             if not frame_re.match(row):
-                res.violate("frame", "manual", "line shows %r, current message %r, values %r" % (row, msg, values))
+                res.violate("frame", where, "line shows %r, current message %r, values %r" % (row, msg, values))
             if not sc["ansi"] and ("\x1b" in data or "\r" in data):
                 res.violate("plain_control", "manual", "control bytes on a plain output: %r" % data)
             if k == "finish" and op[2] and sc["ansi"] and sc["fmt"] in (None, " {indicator} {message}"):
                 if not row.startswith(" %s " % values[0]):
                     res.violate("frame", "finish_reset", "finish(reset_indicator=True) shows %r, first value is %r" % (row, values[0]))
-    res.states.add(("manual", sc["ansi"], frames))
-    res.nontrivial = frames >= 3
+    return frames
